@@ -1119,4 +1119,139 @@ theorem etreeOfGraph_least {E : Nat → Nat → Prop} (hEs : ∀ a b, E a b → 
     (fun gp v hv h => estep_inv hEs hv h)
   exact ⟨key.2.1, key.2.2.2⟩
 
+/-! ### Part E: first-column stars and the graph of AᵀA -/
+
+/-- the graph of AᵀA: distinct columns `< n` sharing a row -/
+def GE (n : Nat) (col : Nat → List Nat) (a b : Nat) : Prop :=
+  a < n ∧ b < n ∧ a ≠ b ∧ ∃ k, k ∈ col a ∧ k ∈ col b
+
+theorem GE.symm {n : Nat} {col : Nat → List Nat} (a b : Nat) (h : GE n col a b) : GE n col b a := by
+  obtain ⟨h1, h2, h3, k, h4, h5⟩ := h
+  exact ⟨h2, h1, h3.symm, k, h5, h4⟩
+
+theorem ataAdj_sq (n : Nat) (col : Nat → List Nat) : Sq n (ataAdj n col) := by
+  unfold ataAdj
+  refine ⟨by simp, fun i hi => ?_⟩
+  simp [Array.getD_eq_getD_getElem?, hi]
+
+theorem ataAdj_get (n : Nat) (col : Nat → List Nat) (i j : Nat) (hi : i < n) (hj : j < n) :
+    adjGet (ataAdj n col) i j = true ↔ GE n col i j := by
+  unfold ataAdj adjGet GE
+  simp only [Array.getD_eq_getD_getElem?, Array.getElem?_map, Array.getElem?_range, hi, hj, if_true,
+    Option.map_some, Option.getD_some]
+  simp only [Bool.and_eq_true, bne_iff_ne, ne_eq, List.any_eq_true, List.contains_iff_mem, true_and]
+
+theorem firstcol_spec (nc : Nat) (col : Nat → List Nat) (r : Nat) :
+    (firstcol nc col r = nc ∧ ∀ j, j < nc → r ∉ col j) ∨
+    (firstcol nc col r < nc ∧ r ∈ col (firstcol nc col r) ∧ ∀ j, j < firstcol nc col r → r ∉ col j) := by
+  have e : firstcol nc col r = ((List.range nc).filter fun j => (col j).contains r).headD nc := by
+    unfold firstcol
+    rw [List.headD_eq_head?_getD, List.head?_filter]
+  rw [e]
+  rcases headD_filter_range nc (fun j => (col j).contains r) with ⟨h1, h2⟩ | ⟨h1, h2, h3⟩
+  · left
+    refine ⟨h1, fun j hj hm => ?_⟩
+    have := h2 j hj
+    exact absurd hm (by simpa using this)
+  · right
+    refine ⟨h1, by simpa using h2, fun j hj hm => ?_⟩
+    have := h3 j hj
+    exact absurd hm (by simpa using this)
+
+/-- the lists Liu's algorithm is run on by `coletree` -/
+def starNbrs (nr nc : Nat) (col : Nat → List Nat) (c : Nat) : List Nat :=
+  (col c).map fun r => ((Array.range nr).map (firstcol nc col)).getD r nc
+
+theorem coletree_eq_liu (nr nc : Nat) (col : Nat → List Nat) :
+    coletree nr nc col = liu nc (starNbrs nr nc col) := rfl
+
+theorem mem_starNbrs {nr nc : Nat} {col : Nat → List Nat} {c : Nat} (hrow : ∀ r ∈ col c, r < nr) (b : Nat) :
+    b ∈ starNbrs nr nc col c ↔ ∃ r, r ∈ col c ∧ firstcol nc col r = b := by
+  unfold starNbrs
+  rw [List.mem_map]
+  constructor
+  · rintro ⟨r, hr, e⟩
+    refine ⟨r, hr, ?_⟩
+    rw [← e]
+    simp [Array.getD_eq_getD_getElem?, hrow r hr]
+  · rintro ⟨r, hr, e⟩
+    refine ⟨r, hr, ?_⟩
+    rw [← e]
+    simp [Array.getD_eq_getD_getElem?, hrow r hr]
+
+theorem GE_of_SE {nr nc : Nat} {col : Nat → List Nat} (hrow : ∀ c, c < nc → ∀ r ∈ col c, r < nr)
+    (a b : Nat) (h : SE (starNbrs nr nc col) nc a b) : GE nc col a b := by
+  have key : ∀ a b, b < a → a < nc → b ∈ starNbrs nr nc col a → GE nc col a b := by
+    intro a b hba ha hm
+    obtain ⟨r, hr, e⟩ := (mem_starNbrs (hrow a ha) b).mp hm
+    rcases firstcol_spec nc col r with ⟨h1, _⟩ | ⟨_, h2, _⟩
+    · omega
+    · rw [e] at h2
+      exact ⟨ha, by omega, by omega, r, hr, h2⟩
+  rcases h with ⟨h1, h2, h3⟩ | ⟨h1, h2, h3⟩
+  · exact key a b h1 h2 h3
+  · exact GE.symm _ _ (key b a h1 h2 h3)
+
+/-- two columns sharing row `r` are both linked to `firstcol r` -/
+theorem SE_of_GE {nr nc : Nat} {col : Nat → List Nat} (hrow : ∀ c, c < nc → ∀ r ∈ col c, r < nr)
+    (a b : Nat) (h : GE nc col a b) :
+    ∃ f, f ≤ a ∧ f ≤ b ∧ (f = a ∨ SE (starNbrs nr nc col) nc a f) ∧
+      (f = b ∨ SE (starNbrs nr nc col) nc f b) := by
+  obtain ⟨ha, hb, _, r, hra, hrb⟩ := h
+  rcases firstcol_spec nc col r with ⟨_, h2⟩ | ⟨h1, h2, h3⟩
+  · exact absurd hra (h2 a ha)
+  · have hfa : firstcol nc col r ≤ a := by
+      by_contra c; exact h3 a (by omega) hra
+    have hfb : firstcol nc col r ≤ b := by
+      by_contra c; exact h3 b (by omega) hrb
+    refine ⟨firstcol nc col r, hfa, hfb, ?_, ?_⟩
+    · by_cases e : firstcol nc col r = a
+      · exact Or.inl e
+      · exact Or.inr (Or.inl ⟨by omega, ha, (mem_starNbrs (hrow a ha) _).mpr ⟨r, hra, rfl⟩⟩)
+    · by_cases e : firstcol nc col r = b
+      · exact Or.inl e
+      · exact Or.inr (Or.inr ⟨by omega, hb, (mem_starNbrs (hrow b hb) _).mpr ⟨r, hrb, rfl⟩⟩)
+
+theorem T_star_of_T_ata {nr nc : Nat} {col : Nat → List Nat}
+    (hrow : ∀ c, c < nc → ∀ r ∈ col c, r < nr) {k a b : Nat} (h : T (GE nc col) k a b) :
+    (a ≤ k ∨ b ≤ k) → T (SE (starNbrs nr nc col) nc) k a b := by
+  induction h with
+  | edge e =>
+    rename_i a b
+    intro hk
+    obtain ⟨f, hfa, hfb, h1, h2⟩ := SE_of_GE hrow a b e
+    have hne : a ≠ b := e.2.2.1
+    rcases h1 with h1 | h1
+    · rcases h2 with h2 | h2
+      · omega
+      · rw [h1] at h2; exact T.edge h2
+    · rcases h2 with h2 | h2
+      · rw [h2] at h1; exact T.edge h1
+      · have hfa' : f ≠ a := by
+          rcases h1 with h | h <;> omega
+        have hfb' : f ≠ b := by
+          rcases h2 with h | h <;> omega
+        exact T.via (T.edge h1) (by omega) (T.edge h2)
+  | via _ hw _ ih1 ih2 =>
+    intro _
+    exact T.via (ih1 (Or.inr (Nat.le_of_lt hw))) hw (ih2 (Or.inl (Nat.le_of_lt hw)))
+
+theorem array_ext_getD {a b : Array Nat} {n : Nat} (ha : a.size = n) (hb : b.size = n)
+    (h : ∀ i, i < n → a.getD i 0 = b.getD i 0) : a = b := by
+  apply Array.ext (by rw [ha, hb])
+  intro i h1 h2
+  have := h i (ha ▸ h1)
+  simpa [Array.getD_eq_getD_getElem?, h1, h2] using this
+
+/-- **Liu's algorithm computes the column elimination tree.** -/
+theorem coletree_eq_etreeDef (nr nc : Nat) (col : Nat → List Nat)
+    (hrow : ∀ c, c < nc → ∀ r ∈ col c, r < nr) : coletree nr nc col = etreeDef nc col := by
+  rw [coletree_eq_liu]
+  obtain ⟨s1, l1⟩ := liu_least nc (starNbrs nr nc col)
+  obtain ⟨s2, l2⟩ := etreeOfGraph_least (E := GE nc col) GE.symm (fun a b h => h.2.2.1) nc
+    (ataAdj nc col) (ataAdj_sq nc col) (ataAdj_get nc col)
+  refine array_ext_getD s1 s2 (fun v hv => ?_)
+  refine Least.unique (fun i hvi hin => ?_) (l1 v hv) (l2 v hv)
+  exact ⟨T.map (GE_of_SE hrow), fun h => T_star_of_T_ata hrow h (Or.inr (Nat.le_refl _))⟩
+
 end Slu.Order
